@@ -354,6 +354,13 @@ func (p c09) Exec(c *run.Ctx, idx int, raw json.RawMessage) []run.Result {
 		}
 		res.Counters["canaries_after"] = 1
 	}
+	// net/http hands a connection back only when the answer body was read to its end or closed: a body that is
+	// dropped unread keeps the connection, and with a bounded pool the next sub-request waits for it forever
+	handed, leaked := r.Log.BodyStats()
+	res.Counters["answer_bodies_tracked"] = handed
+	if len(leaked) > 0 {
+		add("downstream-answer-body-neither-read-nor-closed", fmt.Sprintf("%d of %d answer bodies (%s) were dropped unread and unclosed; %s", len(leaked), handed, strings.Join(leaked, ", "), desc))
+	}
 	if n := settleGoroutines(base + 2); n > base+2 {
 		add("goroutines-left-behind", fmt.Sprintf("%d goroutines before, %d after settle; %s", base, n, desc))
 	}
